@@ -15,9 +15,14 @@ package main
 //                                                              several goroutines writing key-disjoint parts of one table
 //   C <versions> <with deletes 0|1> # <observed versions> # <final>   one writer, one reader, concurrently
 // <config> = <FROM alias|-> <joins> { table I|L <alias|-> <pairs> { <left of => <right of => } } S <select list> <where>;
-//            ON fields as written: "name" or "qualifier.name"
+//            ON fields as written: "name" or "qualifier.name"; <where> in prefix notation: W0 | WE path hex | WN path |
+//            WNN path | WGT path int | WA <where> <where> | WO <where> <where>, path = c:col | q:alias:col
 // <registrations> = <n> { table <A | nkeys keys...> <nrows> rows... }   A: RegisterTable without key fields
 //   G <n> # rows (key, expected group by the harness' own table) # groups   GROUP BY a joined column
+//   W <config> # <registrations> # <N> <grouped 0|1> # <ops: E row D | U table row 1 | D table key> # <batches>
+//       aggregates over joined columns, GROUP BY a joined column, CountingWindow(N); Upsert / Delete between
+//       two rows of one window; <batches> = { B <nrows> { g c sv mx ms } } in the order of arrival; a row whose
+//       Lookup never happened ends the line with "# L <index of the op>"
 // Value tokens: N | I<decimal> | F<m>:<e> (the float m*2^e, m odd or 0) | S<hex> (S- = "") | B0 | B1 ;
 // a missing map key is simply not listed. Maps: { k v k v } (keys sorted), nested for the alias bindings.
 
@@ -383,6 +388,21 @@ func runC16(tier string, seed uint64, o *Out) error {
 		o.Line("%s", l)
 	}
 	o.Count("group_by_joined_column")
+	// ---------------- (5b) windowed aggregation over joined columns with table updates inside an open window
+	nW := 60
+	if thorough {
+		nW = 1500
+	}
+	for i := 0; i < nW; i++ {
+		l, tags, err := c16Window(rng)
+		if err != nil {
+			return err
+		}
+		o.Line("%s", l)
+		for _, t := range tags {
+			o.Count(t)
+		}
+	}
 	// ---------------- (6) encoder through the hook: single values and tuples, literal comparison
 	// (last: the driver prints only the first 200 non-ok verdicts, and the judged lines must come first)
 	for _, v := range tame {
@@ -461,6 +481,8 @@ type c16Cfg struct {
 	joins    []c16Join
 	swapped  bool
 	tags     []string
+	usesX    bool   // the WHERE reads the stream column x: every row carries an integer x
+	fromSQL  string // "stream [alias] JOIN ... ON ..." (what follows FROM, without WHERE)
 }
 
 // the ON clause of one join as text. A table-side field is written alias.col (the alias is the table's own
@@ -511,7 +533,72 @@ func c16OnText(rng *RNG, j *c16Join, srcAlias string, swap bool) (sql string, to
 	return
 }
 
-func c16GenConfig(rng *RNG, nj int, useWhere bool, swap bool) *c16Cfg {
+// one WHERE condition of a generated query: SQL text, tokens (prefix notation: WE path hex | WN path | WNN path |
+// WGT path int | WA w w | WO w w), whether the barrier row (every key column = the barrier string, x = 1000,
+// matched table row tagged "barrier") satisfies it, whether it reads the stream column x
+type c16Where struct {
+	sql, tok string
+	barrier  bool
+	usesX    bool
+	tags     []string
+}
+
+func c16GenWhere(rng *RNG, joins []c16Join, srcAlias string, depth int) c16Where {
+	if depth < 2 && rng.Intn(100) < 45-20*depth {
+		a := c16GenWhere(rng, joins, srcAlias, depth+1)
+		b := c16GenWhere(rng, joins, srcAlias, depth+1)
+		par := func(w c16Where) string {
+			if strings.HasPrefix(w.tok, "WA ") || strings.HasPrefix(w.tok, "WO ") {
+				return "(" + w.sql + ")"
+			}
+			return w.sql
+		}
+		w := c16Where{usesX: a.usesX || b.usesX, tags: append(append([]string{}, a.tags...), b.tags...)}
+		if rng.Bool() {
+			w.sql, w.tok, w.barrier = par(a)+" AND "+par(b), "WA "+a.tok+" "+b.tok, a.barrier && b.barrier
+			w.tags = append(w.tags, "where_and")
+		} else {
+			w.sql, w.tok, w.barrier = par(a)+" OR "+par(b), "WO "+a.tok+" "+b.tok, a.barrier || b.barrier
+			w.tags = append(w.tags, "where_or")
+		}
+		return w
+	}
+	if rng.Intn(5) < 2 { // a column of a joined table
+		j := joins[rng.Intn(len(joins))]
+		tags := []string{"where_on_joined_column"}
+		switch rng.Intn(3) {
+		case 0:
+			return c16Where{sql: j.alias + ".tag = 'red'", tok: "WE q:" + j.alias + ":tag " + hx("red"), tags: tags}
+		case 1:
+			return c16Where{sql: j.alias + ".tag IS NULL", tok: "WN q:" + j.alias + ":tag", tags: tags}
+		}
+		return c16Where{sql: j.alias + ".tag IS NOT NULL", tok: "WNN q:" + j.alias + ":tag", barrier: true, tags: tags}
+	}
+	// a stream column, bare or qualified by the FROM alias
+	col := c16StreamFields[rng.Intn(len(c16StreamFields))]
+	kind := rng.Intn(4)
+	if kind == 3 {
+		col = "x"
+	}
+	text, path, tag := col, "c:"+col, "where_stream_column_bare"
+	if srcAlias != "" && rng.Intn(3) != 0 {
+		text, path, tag = srcAlias+"."+col, "q:"+srcAlias+":"+col, "where_stream_column_by_from_alias"
+	}
+	tags := []string{tag}
+	switch kind {
+	case 0:
+		return c16Where{sql: text + " IS NULL", tok: "WN " + path, tags: tags}
+	case 1:
+		return c16Where{sql: text + " IS NOT NULL", tok: "WNN " + path, barrier: true, tags: tags}
+	case 2:
+		lit := []string{"x", "y", "z", "a", "d1", "d2"}[rng.Intn(6)]
+		return c16Where{sql: text + " = '" + lit + "'", tok: "WE " + path + " " + hx(lit), tags: tags}
+	}
+	c := rng.Intn(100)
+	return c16Where{sql: fmt.Sprintf("%s > %d", text, c), tok: fmt.Sprintf("WGT %s %d", path, c), barrier: true, usesX: true, tags: tags}
+}
+
+func c16GenConfig(rng *RNG, nj int, useWhere bool, barrierSafe bool, swap bool) *c16Cfg {
 	var tags []string
 	srcAlias := ""
 	if rng.Bool() {
@@ -579,26 +666,25 @@ func c16GenConfig(rng *RNG, nj int, useWhere bool, swap bool) *c16Cfg {
 	} else {
 		tags = append(tags, "select_star")
 	}
-	// WHERE on a joined column
-	whereSQL, whereTok := "", "W0"
-	if useWhere {
-		j := joins[rng.Intn(nj)]
-		switch rng.Intn(7) {
-		case 0:
-			whereSQL, whereTok = " WHERE "+j.alias+".tag = 'red'", "WE q:"+j.alias+":tag "+hx("red")
-		case 1:
-			whereSQL, whereTok = " WHERE "+j.alias+".tag IS NULL", "WN q:"+j.alias+":tag"
-		case 2:
-			whereSQL, whereTok = " WHERE "+j.alias+".tag IS NOT NULL", "WNN q:"+j.alias+":tag"
-		}
-		if whereTok != "W0" {
-			tags = append(tags, "where_on_joined_column")
+	// WHERE over the enriched row: table columns (alias.col), stream columns written bare or qualified by the
+	// FROM alias, and AND / OR mixtures of them
+	whereSQL, whereTok, usesX := "", "W0", false
+	if useWhere && rng.Intn(10) < 7 {
+		for try := 0; try < 12; try++ {
+			w := c16GenWhere(rng, joins, srcAlias, 0)
+			if barrierSafe && !w.barrier {
+				continue
+			}
+			whereSQL, whereTok, usesX = " WHERE "+w.sql, w.tok, w.usesX
+			tags = append(tags, w.tags...)
+			break
 		}
 	}
 	from := "stream"
 	if srcAlias != "" {
 		from += []string{" ", " AS "}[rng.Intn(2)] + srcAlias
 	}
+	fromSQL := from
 	sql := "SELECT " + selSQL + " FROM " + from
 	var cfgTok []string
 	if srcAlias == "" {
@@ -620,6 +706,7 @@ func c16GenConfig(rng *RNG, nj int, useWhere bool, swap bool) *c16Cfg {
 			}
 			tags = append(tags, "inner")
 		}
+		joinAt := len(sql)
 		sql += " " + kw + " " + j.table
 		aliasTok := "-"
 		if j.hasAlias {
@@ -633,6 +720,7 @@ func c16GenConfig(rng *RNG, nj int, useWhere bool, swap bool) *c16Cfg {
 		swappedAny = swappedAny || sw
 		tags = append(tags, onTags...)
 		sql += " ON " + onSQL
+		fromSQL += sql[joinAt:]
 		lr := "I"
 		if j.left {
 			lr = "L"
@@ -647,7 +735,7 @@ func c16GenConfig(rng *RNG, nj int, useWhere bool, swap bool) *c16Cfg {
 	}
 	sql += whereSQL
 	return &c16Cfg{sql: sql, cfgTok: strings.Join(cfgTok, " ") + " " + selTok + " " + whereTok,
-		srcAlias: srcAlias, joins: joins, swapped: swappedAny, tags: tags}
+		srcAlias: srcAlias, joins: joins, swapped: swappedAny, tags: tags, usesX: usesX, fromSQL: fromSQL}
 }
 
 var c16StreamFields = []string{"k1", "k2", "k3"}
@@ -659,7 +747,7 @@ func c16History(rng *RNG, idx int) (string, []string, error) {
 	}
 	useEmit := rng.Intn(3) == 0
 	// one history in 16 writes some ON equality as table = stream
-	cfg := c16GenConfig(rng, nj, !useEmit, rng.Intn(16) == 0)
+	cfg := c16GenConfig(rng, nj, true, useEmit, rng.Intn(16) == 0)
 	tags, joins, sql, sf := cfg.tags, cfg.joins, cfg.sql, c16StreamFields
 
 	s := streamsql.New(streamsql.WithDiscardLog())
@@ -796,7 +884,7 @@ func c16History(rng *RNG, idx int) (string, []string, error) {
 				}
 			}
 		}
-		if rng.Intn(4) == 0 {
+		if rng.Intn(4) == 0 || cfg.usesX {
 			r["x"] = rng.Intn(100)
 		}
 		if rng.Intn(40) == 0 { // a stream column named like the table alias is overwritten by the binding
@@ -840,6 +928,9 @@ func c16History(rng *RNG, idx int) (string, []string, error) {
 		r := map[string]any{"id": id}
 		for _, f := range sf {
 			r[f] = c16Barrier
+		}
+		if cfg.usesX {
+			r["x"] = 1000
 		}
 		s.Emit(r)
 		m, ok := arrived(id, 1500*time.Millisecond)
@@ -1117,7 +1208,7 @@ func c16ID(v any) int64 {
 // (Props/C16.v C16_concurrent_writers: for EVERY interleaving of atomic operations what a key sees depends
 // only on the writes to that key). A lost update / resurrected row is a chk verdict.
 func c16Writers(rng *RNG, thorough bool) (string, []string, error) {
-	cfg := c16GenConfig(rng, 1, false, false)
+	cfg := c16GenConfig(rng, 1, false, false, false)
 	tags := append([]string{"concurrent_writers"}, cfg.tags...)
 	j := cfg.joins[0]
 	s := streamsql.New(streamsql.WithDiscardLog())
@@ -1429,4 +1520,227 @@ func c16GroupBy(rng *RNG) (string, error) {
 		rt = append(rt, c16Tok(r["a"]), c16Tok(r["tag"]))
 	}
 	return fmt.Sprintf("C16 G %s %d %s # %d %s # %s", lr, len(rows), strings.Join(rt, " "), len(in), strings.Join(in, " "), strings.Join(gt, " ")), nil
+}
+
+// c16SigTable delegates to an in-memory table and reports every finished Lookup, so that the harness knows a
+// stream row has been enriched (processed) before it changes the table: the order of row processing and table
+// updates is then the order of the line, without sleeps.
+type c16SigTable struct {
+	*stream.MemoryTableSource
+	looked chan struct{}
+}
+
+func (t *c16SigTable) Lookup(key any) (map[string]any, bool) {
+	row, ok := t.MemoryTableSource.Lookup(key)
+	t.looked <- struct{}{}
+	return row, ok
+}
+
+// Windowed family: SELECT [m.tag AS g,] COUNT(*), SUM(m.v), MAX(m.v), MAX(seq) FROM <generated FROM / JOIN>
+// GROUP BY [m.tag,] CountingWindow(N). Rows are emitted one at a time, each awaited through the Lookup signal;
+// between two rows of one window the table row the last row matched (or another one) is deleted, replaced, or
+// deleted and created again. The rows of a window wait in the open window while the table changes: what the
+// window reports must be what each row saw at ITS processing time (the per-row enrichment of the model).
+// After the generated rows N filler rows (matching a permanent table row) push every earlier row out: the
+// batch that contains a filler (MAX(seq) beyond the generated rows) is the last one to wait for.
+func c16Window(rng *RNG) (string, []string, error) {
+	cfg := c16GenConfig(rng, 1, false, false, false)
+	tags := append([]string{"window_family"}, cfg.tags...)
+	j := cfg.joins[0]
+	n := 2 + rng.Intn(4)
+	grouped := rng.Intn(4) != 0
+	sel, grp := "", ""
+	if grouped {
+		sel, grp = j.alias+".tag AS g, ", j.alias+".tag, "
+		tags = append(tags, "window_group_by_joined_column")
+	} else {
+		tags = append(tags, "window_no_group_column")
+	}
+	sql := fmt.Sprintf("SELECT %sCOUNT(*) AS c, SUM(%s.v) AS sv, MAX(%s.v) AS mx, MAX(seq) AS ms FROM %s GROUP BY %sCountingWindow(%d)",
+		sel, j.alias, j.alias, cfg.fromSQL, grp, n)
+	s := streamsql.New(streamsql.WithDiscardLog())
+	defer s.Stop()
+	if err := s.Execute(sql); err != nil {
+		return c16SetupFailure("execute", sql, err), append(tags, "setup_rejected"), nil
+	}
+	pool := c16KeyPool(rng)
+	if len(pool) > 4 {
+		pool = pool[:4]
+	}
+	vctr := 0
+	mkTableRow := func() map[string]any {
+		vctr++
+		r := map[string]any{"v": vctr}
+		for _, f := range j.tfields {
+			r[f] = pool[rng.Intn(len(pool))]
+		}
+		switch rng.Intn(5) {
+		case 0, 1:
+			r["tag"] = "red"
+		case 2:
+			r["tag"] = "blue"
+		case 3:
+			r["tag"] = nil
+		}
+		return r
+	}
+	var rows []map[string]any
+	var recent []map[string]any
+	for k := 1 + rng.Intn(3); k > 0; k-- {
+		r := mkTableRow()
+		rows = append(rows, r)
+		recent = append(recent, r)
+	}
+	vctr++
+	br := map[string]any{"v": vctr, "tag": "barrier"}
+	for _, f := range j.tfields {
+		br[f] = c16Barrier
+	}
+	rows = append(rows, br)
+	// every row is written down BEFORE the implementation gets hold of the map
+	regTok := []string{"1", j.table, strconv.Itoa(len(j.tfields))}
+	regTok = append(regTok, j.tfields...)
+	regTok = append(regTok, strconv.Itoa(len(rows)))
+	for _, r := range rows {
+		regTok = append(regTok, c16Row(r))
+	}
+	tbl := &c16SigTable{MemoryTableSource: stream.NewMemoryTableSource(j.table, j.tfields, rows), looked: make(chan struct{}, 256)}
+	if err := s.RegisterTableSource(tbl); err != nil {
+		return c16SetupFailure("register", sql, err), append(tags, "setup_rejected"), nil
+	}
+	var mu sync.Mutex
+	var batches [][]map[string]any
+	lastSeq := int64(-1) // the largest MAX(seq) seen so far
+	s.AddSyncSink(func(rs []map[string]any) {
+		mu.Lock()
+		batches = append(batches, rs)
+		for _, r := range rs {
+			if q := c16ID(r["ms"]); q > lastSeq {
+				lastSeq = q
+			}
+		}
+		mu.Unlock()
+	})
+	var opTok []string
+	nopsDone := 0
+	seq := int64(0)
+	missing := -1
+	emit := func(row map[string]any) bool {
+		seq++
+		row["seq"] = seq
+		opTok = append(opTok, "E", c16Row(row), "D")
+		s.Emit(row)
+		select {
+		case <-tbl.looked:
+			nopsDone++
+			return true
+		case <-time.After(30 * time.Second):
+			missing = nopsDone
+			return false
+		}
+	}
+	nreal := 3 + rng.Intn(4*n)
+	for i := 0; i < nreal && missing < 0; i++ {
+		row := map[string]any{}
+		for _, f := range c16StreamFields {
+			if rng.Intn(15) != 0 {
+				row[f] = pool[rng.Intn(len(pool))]
+			}
+		}
+		if len(recent) > 0 && rng.Intn(10) < 7 { // aim at a row of the table
+			tr := recent[rng.Intn(len(recent))]
+			for p, f := range j.sfields {
+				row[f] = tr[j.tfields[p]]
+			}
+		}
+		if !emit(row) {
+			break
+		}
+		if rng.Intn(10) < 6 {
+			key := make([]any, len(j.sfields))
+			for p, f := range j.sfields { // the key of the row just processed: the table row it matched, if any
+				key[p] = row[f]
+			}
+			if rng.Intn(4) == 0 {
+				for p := range key {
+					key[p] = pool[rng.Intn(len(pool))]
+				}
+			}
+			del := func() {
+				if len(key) == 1 && rng.Bool() {
+					opTok = append(opTok, "D", j.table, "S", c16Tok(key[0]))
+					tbl.Delete(key[0])
+				} else {
+					opTok = append(opTok, "D", j.table, "T", c16Tuple(key))
+					tbl.Delete(key)
+				}
+				nopsDone++
+				tags = append(tags, "window_delete_between_rows")
+			}
+			ups := func() {
+				r := mkTableRow()
+				for p, f := range j.tfields {
+					r[f] = key[p]
+				}
+				opTok = append(opTok, "U", j.table, c16Row(r), "1")
+				tbl.Upsert(r)
+				nopsDone++
+				recent = append(recent, r)
+				if len(recent) > 5 {
+					recent = recent[1:]
+				}
+				tags = append(tags, "window_upsert_between_rows")
+			}
+			switch rng.Intn(5) {
+			case 0, 1:
+				del()
+			case 2, 3:
+				ups()
+			default:
+				del()
+				ups()
+			}
+		}
+	}
+	real := seq
+	for i := 0; i < n && missing < 0; i++ {
+		row := map[string]any{}
+		for _, f := range c16StreamFields {
+			row[f] = c16Barrier
+		}
+		if !emit(row) {
+			break
+		}
+	}
+	if missing < 0 { // the window that holds the first filler closes every window with a generated row
+		deadline := time.Now().Add(30 * time.Second)
+		for {
+			mu.Lock()
+			done := lastSeq > real
+			mu.Unlock()
+			if done || time.Now().After(deadline) {
+				break
+			}
+			time.Sleep(200 * time.Microsecond)
+		}
+	}
+	mu.Lock()
+	defer mu.Unlock()
+	var bt []string
+	for _, b := range batches {
+		bt = append(bt, "B", strconv.Itoa(len(b)))
+		for _, r := range b {
+			g := "N"
+			if grouped {
+				g = c16Tok(r["g"])
+			}
+			bt = append(bt, g, c16Tok(r["c"]), c16Tok(r["sv"]), c16Tok(r["mx"]), c16Tok(r["ms"]))
+		}
+	}
+	line := fmt.Sprintf("C16 W %s # %s # %d %s # %s # %s", cfg.cfgTok, strings.Join(regTok, " "), n, b01(grouped),
+		strings.Join(opTok, " "), strings.Join(bt, " "))
+	if missing >= 0 {
+		line += fmt.Sprintf(" # L %d", missing)
+	}
+	return line, tags, nil
 }
